@@ -6,10 +6,11 @@ CONSTANTS
  HashSession = TRUE
  HashId = TRUE
  DedupMode = "peer+id"
+ AllowRelay = TRUE
  MCCfgs <- CfgAll
  Bodies = {x, y}
  MaxFSig = 99
- MaxB = 2
+ MaxB = 1
  Lists = "best"
 SYMMETRY Sym
 INVARIANTS Safety
